@@ -175,6 +175,21 @@ func same(a, b ssa.Value, d int) bool {
 	if d == 0 || a == nil || b == nil {
 		return false
 	}
+	// across the boundary of a private helper: a parameter is the argument of the only
+	// call site, a free variable is its binding, a single-return helper is its result
+	ra, oka := resolveOnce(a)
+	rb, okb := resolveOnce(b)
+	if oka || okb {
+		if !oka {
+			ra = a
+		}
+		if !okb {
+			rb = b
+		}
+		if same(ra, rb, d-1) {
+			return true
+		}
+	}
 	switch x := a.(type) {
 	case *ssa.Const:
 		y, ok := b.(*ssa.Const)
